@@ -878,6 +878,9 @@ func C07(c *core.Ctx, replay string) {
 		lemRes[i].Cleanup()
 	}
 
+	// 3b. listings while an overwrite is held between its file-system steps
+	c07Gated(c)
+
 	// 4. (C) random larger key sets on the real gateway, judged by TLC as a trace
 	// (on a gateway of its own with two processors: concurrent listings then share them)
 	renv := MustEnv(c, false, false, func(g *gw.Config) {
